@@ -469,8 +469,7 @@ def rule_R2(ctx, repo):
     # is_int excludes bool
     fn = repo.func(VALID, "is_int")
     rets = astq.returns(fn)
-    at = Atomizer({"x": "x"})
-    f = at.formula(rets[0].value) if len(rets) == 1 else None
+    f = PathConditions(fn, Atomizer({"x": "x"})).returned_truth()
     A = atom("isinstance(x, [int, np.integer])")
     B = atom("isinstance(x, bool)")
     ok = None
@@ -478,7 +477,7 @@ def rule_R2(ctx, repo):
         ok, wit = equivalent(f, conj(A, neg(B)))
         if ok is False and not (atoms_subset(f, {"isinstance(x, [int, np.integer])", "isinstance(x, bool)"})):
             # accept other integer-type tuples that still contain int and np.integer
-            ok = _is_int_shape(rets[0].value)
+            ok = _is_int_shape(rets[0].value) if len(rets) == 1 else None
     ctx.check(ok, "R2", "is_int", "integer types accepted, bool excluded", "is_int is %s" % (show(f) if f else "?"), ctx.loc(m, fn))
 
     for relpath, fname, pname in ((VALID, "check_window_length", "window_length"), (VFC, "check_step_length", "step_length")):
@@ -631,26 +630,51 @@ def rule_R2(ctx, repo):
     fmod = repo.module(FH)
     fn = repo.func(FH, "_check_values")
     g = CFG(fn)
-    dup = []
-    for n in ast.walk(fn):
-        if isinstance(n, ast.If) and block_always_raises(n.body):
-            f = Atomizer().formula(n.test)
-            if f[0] == "not" and f[1][0] == "atom" and f[1][1].startswith("eq(") and "len(values)" in f[1][1] and "values.nunique()" in f[1][1]:
-                dup.append(n)
-    ok = bool(dup)
+    from ..boolx import evaluate as _ev
+    pcv = PathConditions(fn, Atomizer())
+    ats = sorted(atoms_of_formula(pcv.raises))
+    dup_atoms = [a for a in ats if a.startswith("eq(") and "len(values" in a and "nunique()" in a]
+    type_atoms = [a for a in ats if a.startswith("in(type(values") or a.startswith("isinstance(values")]
+    ok_dup = ok_type = False
+    if len(dup_atoms) == 1 and type_atoms:
+        # a supported container holding duplicates must be rejected; without duplicates it must be accepted
+        for valid in type_atoms:
+            env = {a: False for a in ats}
+            env[valid] = True
+            if valid.startswith("isinstance(values") and ("int" in valid and "list" not in valid):
+                continue  # a single integer is wrapped directly (no duplicates possible)
+            env[dup_atoms[0]] = False
+            r1 = _ev(pcv.raises, env)
+            env[dup_atoms[0]] = True
+            r2 = _ev(pcv.raises, env)
+            ok_dup = (r1 is True and r2 is False) if not ok_dup else (ok_dup and r1 is True and r2 is False)
+        # no supported type: TypeError
+        env = {a: False for a in ats}
+        env[dup_atoms[0]] = True
+        te = FALSE
+        for st_, cond_ in pcv.raise_sites:
+            nm = dotted(st_.exc.func) if isinstance(st_.exc, ast.Call) else dotted(st_.exc)
+            if nm == "TypeError":
+                te = disj(te, cond_)
+        ok_type = _ev(te, env) is True
     rets = astq.returns(fn)
-    sorted_rets = [r for r in rets if isinstance(r.value, ast.Call) and astq.call_name(r.value) == "sort_values"]
+
+    def _ret_value(r):
+        v = r.value
+        if isinstance(v, ast.Name):
+            vals = astq.assigned_values(fn, v.id)
+            v = vals[-1] if vals else v
+        return v
+    sorted_rets = [r for r in rets if isinstance(_ret_value(r), ast.Call) and astq.call_name(_ret_value(r)) == "sort_values"]
     other = [r for r in rets if r not in sorted_rets]
-    single = all(isinstance(r.value, ast.Call) and len(r.value.args) >= 1 and isinstance(r.value.args[0], ast.List) and len(r.value.args[0].elts) == 1 for r in other)
-    ctx.check(ok and bool(sorted_rets) and single, "R2", "_check_values:dups-sorted", "duplicates rejected; every multi-value path returns sort_values()",
-              "_check_values: duplicate test %s, sorted returns %d, other returns are single-value wraps: %s" % (ok, len(sorted_rets), single), ctx.loc(fmod, fn))
-    if dup and sorted_rets:
-        gd = g.node_of(dup[0].test)
-        IN, OUT = g.forward_must(lambda n: n is gd)
-        okp = all(IN[g.node_of(r).id] for r in sorted_rets if g.node_of(r) is not None)
-        ctx.check(okp, "R2", "_check_values:dup-before-sort", "the duplicate test precedes every sorted return", "a sorted return is reachable without the duplicate test", ctx.loc(fmod, fn))
-    chain = _final_else_raises(fn)
-    ctx.check(chain, "R2", "_check_values:type-default", "unsupported value types raise TypeError", "the type dispatch of _check_values has no rejecting default", ctx.loc(fmod, fn))
+    single = all(isinstance(_ret_value(r), ast.Call) and len(_ret_value(r).args) >= 1 and isinstance(_ret_value(r).args[0], ast.List)
+                 and len(_ret_value(r).args[0].elts) == 1 for r in other)
+    ctx.check(ok_dup and bool(sorted_rets) and single, "R2", "_check_values:dups-sorted",
+              "a supported container is rejected iff it holds duplicates; every multi-value path returns sort_values()",
+              "_check_values: duplicates rejected exactly: %s, sorted returns %d, other returns are single-value wraps: %s (rejection condition %s)"
+              % (ok_dup, len(sorted_rets), single, show(pcv.raises)), ctx.loc(fmod, fn))
+    ctx.check(ok_type, "R2", "_check_values:type-default", "unsupported value types raise TypeError",
+              "a value of no supported type is not rejected with TypeError by _check_values", ctx.loc(fmod, fn))
 
 
 def atoms_of_formula(f):
